@@ -273,7 +273,20 @@ class QvmCode(BaseCode):
         self._data[label].extend(data)
 
     def get_data_label_index(self, label):
-        return list(self._data.keys()).index(label)
+        keys = list(self._data.keys())
+        if label in keys:
+            return keys.index(label)
+
+        # no DATA statement between this label and the next one: the
+        # first DATA statement after it is filed under one of the
+        # labels that follow
+        order = self.compilation.label_order
+        for later in order[order.index(label) + 1:]:
+            if later in keys:
+                return keys.index(later)
+
+        # no DATA after the label at all: the next READ is out of data
+        return len(keys)
 
     def add_user_type(self, type_block):
         self._user_types[type_block.name] = type_block
